@@ -185,3 +185,30 @@ def gen_registry(rng, tier):
           "settle 3500", "listall svc4", "reg 3 svc4 10.0.0.8 80 0", "settle 3500", "listall svc4"]
     cases.append(Case("registry-class-flip", fl, True, "boundary"))
     return cases
+
+
+def gen_tokens(rng, tier):
+    """C16: the real binary with OpenAPI auth on and short-lived access tokens: a token whose lifetime has passed stays
+    refused - also across restarts, which replay the log entry that stored it"""
+    cases = []
+    a = ["upauth 3", "login 1 a", "tpub 1 a k0 v0", "tget 1 a k0", "tget 1 none k0", "tget 1 garbage k0", "tpub 1 none k1 v1",
+         "settle 4500", "tget 1 a k0", "kill 1", "start 1", "settle 3000", "tget 1 a k0", "tpub 1 a k0 v2", "login 1 b", "tget 1 b k0",
+         "settle 4500", "tget 1 b k0", "kill 1", "start 1", "settle 3000", "tget 1 b k0", "tget 1 a k0", "tget 1 none k0"]
+    cases.append(Case("tokens-expire-across-restarts", a, True, "boundary"))
+    if tier == "thorough":
+        for i in range(3):
+            ttl = rng.choice([2, 3, 5])
+            ops = ["upauth %d" % ttl]
+            names = []
+            for k in range(rng.randrange(2, 5)):
+                n = "t%d" % k
+                names.append(n)
+                ops += ["login 1 %s" % n, "tpub 1 %s k%d v%d" % (n, k, k)]
+                ops.append("settle %d" % rng.choice([500, ttl * 1000 + 1500]))
+                if rng.random() < 0.6:
+                    ops += ["kill 1", "start 1", "settle 3000"]
+                for m in names:
+                    ops.append("tget 1 %s k0" % m)
+                ops.append("tget 1 %s k0" % rng.choice(["none", "garbage"]))
+            cases.append(Case("tokens-%d" % i, ops, True, "random"))
+    return cases
